@@ -392,9 +392,8 @@ Patterns(n) == {{}, {p \in Pos(n) : p % 2 = 1}, {p \in Pos(n) : p % 3 = 0}, Pos(
 ZeroSets(n) == IF n <= 6 THEN SUBSET Pos(n)
                ELSE Patterns(n) \cup {{p} : p \in Pos(n)} \cup {Pos(n) \ {p} : p \in Pos(n)}
 RichContents(n) == UNION {{Content(n, Z, sq[1], sq[2]) : sq \in Specials(n, Z)} : Z \in ZeroSets(n)}
-PlainContents(n) == {Content(n, Z, "one", -1) : Z \in Patterns(n)}
 
-Windows(n) == {<<a, b>> \in (0..n) \X (0..n) : a < b /\ b - a < n} \cup {<<0, 0>>, <<n, n>>}   \* proper sub-windows, two empty ones
+Windows(n) == {<<a, b>> \in (0..n) \X (0..n) : a < b} \cup {<<0, 0>>, <<n, n>>}   \* every non-empty window (incl. the full range), two empty ones
 Classes == {<<"plain", "none">>, <<"real", "none">>, <<"real", "var">>}
 Storages == {"dense", "sparse"}
 
@@ -417,8 +416,11 @@ VectorViews(u) ==
 Dims == (0..MaxDim) \X (0..MaxDim)
 MatricesRound(u) ==
   UNION {{Mat(cd[1], cd[2], st, rc[1], rc[2], c, v) : cd \in Classes, st \in Storages, c \in RichContents(rc[1] * rc[2]), v \in {<<>>, <<TOp>>}} : rc \in Dims}
+(* views: plain elements and real elements that are variables; the all-zero parent shows nothing *)
+ViewClasses == {<<"plain", "none">>, <<"real", "var">>}
+ViewContents(n) == {Content(n, Z, "one", -1) : Z \in Patterns(n) \ {Pos(n)}}
 MatricesViews(u) ==
-  UNION {{Mat(cd[1], cd[2], st, rc[1], rc[2], c, v) : cd \in Classes, st \in Storages, c \in PlainContents(rc[1] * rc[2]), v \in MatViews(rc[1], rc[2])}
+  UNION {{Mat(cd[1], cd[2], st, rc[1], rc[2], c, v) : cd \in ViewClasses, st \in Storages, c \in ViewContents(rc[1] * rc[2]), v \in MatViews(rc[1], rc[2])}
            : rc \in (1..(MaxDim+1)) \X (1..(MaxDim+1))}
 
 DerivAtoms == IF Rich THEN {"zero", "one", "negzero", "subnormal", "minusTwo"} ELSE {"zero", "one", "negzero"}
@@ -434,7 +436,7 @@ RoundObjects(u) == ScalarsRound(u) \cup VectorsRound(u) \cup VectorViews(u) \cup
 
 (* small objects for the fault family: every document shape occurs *)
 FaultObjects(u) ==
-  {Scal("bare", "half", 0, 0, <<>>, <<>>), Scal("real", "half", 0, 0, <<>>, <<>>),
+  {Scal("bare", "minusTwo", 0, 0, <<>>, <<>>), Scal("real", "half", 0, 0, <<>>, <<>>),
    Scal("real", "half", 1, 2, <<"one", "zero">>, <<>>),
    Scal("real", "half", 2, 2, <<"one", "zero">>, <<<<"zero", "half">>, <<"half", "zero">>>>),
    Scal("real", "half", 2, 2, <<"zero", "zero">>, <<<<"half", "zero">>, <<"zero", "zero">>>>)} \cup
